@@ -12,6 +12,8 @@ import (
 	"path/filepath"
 	"strconv"
 	"strings"
+	"syscall"
+	"time"
 )
 
 type fsInode struct {
@@ -289,8 +291,11 @@ func InstallFS() *FSModel {
 	})
 	Replace("os.Stat", func(p string) (os.FileInfo, error) {
 		p = filepath.Clean(p)
-		if m.Dirs[p] || m.Files[p] != nil {
-			return nil, nil
+		if m.Dirs[p] {
+			return fsInfo{name: filepath.Base(p), dir: true}, nil
+		}
+		if ino := m.Files[p]; ino != nil {
+			return fsInfo{name: filepath.Base(p), size: int64(len(ino.data))}, nil
 		}
 		return nil, m.notExist("stat", p)
 	})
@@ -341,6 +346,24 @@ func InstallFS() *FSModel {
 	})
 	return m
 }
+
+type fsInfo struct {
+	name string
+	size int64
+	dir  bool
+}
+
+func (i fsInfo) Name() string { return i.name }
+func (i fsInfo) Size() int64  { return i.size }
+func (i fsInfo) Mode() os.FileMode {
+	if i.dir {
+		return os.ModeDir | 0755
+	}
+	return 0644
+}
+func (i fsInfo) ModTime() time.Time { return time.Time{} }
+func (i fsInfo) IsDir() bool        { return i.dir }
+func (i fsInfo) Sys() any           { return &syscall.Stat_t{} }
 
 // HandleClosed reports whether the model handle behind f was closed (engine only).
 func (m *FSModel) HandleClosed(f *os.File) bool {
